@@ -1,7 +1,10 @@
-(* C04 - Rowid lookup finds a row iff it exists.  (first part: the from-key
-   descent of table b-trees; the statement over Table.Rowid is in LowP) *)
-From SQ Require Import Model.Base Model.Btree Spec.Flat Proofs.SearchP Proofs.BtreeP Proofs.BtreeMinP.
+(* C04 - Rowid lookup finds a row iff it exists.  Property theorems only;
+   proofs are in Proofs/. *)
+From SQ Require Import Model.Base Model.Record Model.Payload Model.Btree Model.Low Spec.Flat
+     Proofs.SearchP Proofs.BtreeP Proofs.BtreeMinP Proofs.LowP.
+From Coq Require Import Sorted.
 
+(* the from-key descent of a table b-tree, generic in the tree *)
 Theorem C04_descent : forall P openp S tcb rowid,
   (forall k pl s, fst (tcb k pl s) <> Continue) ->
   forall r pg l s,
@@ -9,3 +12,21 @@ Theorem C04_descent : forall P openp S tcb rowid,
   titer_min P openp S tcb r pg rowid s = tmin_spec P S tcb rowid l s.
 Proof. exact titer_min_spec. Qed.
 Print Assumptions C04_descent.
+
+(* Table.Rowid on a well-formed table tree (rowids ascending, interior keys
+   bounding their left subtrees) is the lookup among the tree's rows: the
+   row stored under that rowid if present, "not found" and no error if
+   absent - for every rowid (any Z, in particular all of int64) and every
+   depth the code accepts *)
+Theorem C04_lookup : forall pg U npages root rowid p l,
+  open_table _ (openp pg U) root = Ok p ->
+  tflat _ (openp pg U) max_recursion p = (l, None) ->
+  StronglySorted Z.lt (map fst l) ->
+  sep_ok cell_payload (openp pg U) rowid max_recursion p ->
+  table_rowid pg U npages root rowid =
+  match lookup_pl rowid l with
+  | None => Ok None
+  | Some (_, pl) => do rec <- load pg npages pl; Ok (Some rec)
+  end.
+Proof. exact table_rowid_lookup. Qed.
+Print Assumptions C04_lookup.
